@@ -1,3 +1,13 @@
+#![feature(sized_hierarchy)]
+#![feature(allocator_api)]
+#![allow(unused_imports, unused_variables, dead_code, unused_mut, unused_parens, unused_braces, non_snake_case)]
+use vstd::prelude::*;
+use vstd::std_specs::ops::*;
+use vstd::std_specs::cmp::*;
+use vstd::float::*;
+use vstd::std_specs::iter::IteratorSpec;
+verus! {
+// ---- prelude fragment: floats.rs ----
 // Floating point, layer 1 ("uninterpreted" mode of DESIGN.md 3.2): every f64 operator instance the
 // language can produce is linked to ONE total, deterministic, otherwise unknown function of the
 // operand values.  Nothing about IEEE-754 is assumed here.
@@ -111,3 +121,117 @@ pub assume_specification [core::cmp::Ordering::is_lt] (o: core::cmp::Ordering) -
 pub assume_specification [core::cmp::Ordering::is_le] (o: core::cmp::Ordering) -> (r: bool) ensures r == (o != core::cmp::Ordering::Greater);
 pub assume_specification [core::cmp::Ordering::is_gt] (o: core::cmp::Ordering) -> (r: bool) ensures r == (o == core::cmp::Ordering::Greater);
 pub assume_specification [core::cmp::Ordering::is_ge] (o: core::cmp::Ordering) -> (r: bool) ensures r == (o != core::cmp::Ordering::Less);
+
+// ---- prelude fragment: slice_state_ext.rs ----
+// R6 state abstraction for the external-sampling loops: one iteration = pass for player one, then
+// pass for player two; each pass is an uninterpreted, deterministic transformer of the opaque state
+// and reports that player's bound.
+pub struct St { pub g: Ghost<int> }
+pub uninterp spec fn pass_one(s: int, it: u64) -> int;
+pub uninterp spec fn pass_two(s: int, it: u64) -> int;
+pub uninterp spec fn reg_one_of(s: int) -> f64;
+pub uninterp spec fn reg_two_of(s: int) -> f64;
+pub open spec fn step_state(s: int, it: u64) -> int { pass_two(pass_one(s, it), it) }
+pub open spec fn state_after(s0: int, k: nat) -> int decreases k {
+    if k == 0 { s0 } else { step_state(state_after(s0, (k - 1) as nat), k as u64) }
+}
+// bounds reported by iteration k (k >= 1)
+pub open spec fn regs_at(s0: int, k: nat) -> (f64, f64) {
+    (reg_one_of(pass_one(state_after(s0, (k - 1) as nat), k as u64)), reg_two_of(state_after(s0, k)))
+}
+pub open spec fn below_at(s0: int, k: nat, r: f64) -> bool { flt(fmaxf(regs_at(s0, k).0, regs_at(s0, k).1), r) }
+pub uninterp spec fn __s0() -> int;
+#[verifier::external_body]
+pub fn __init_state() -> (st: St) { unimplemented!() }
+#[verifier::external_body]
+pub fn __abs_pass_one(st: &mut St, it: u64) -> (r: f64)
+    ensures final(st).g@ == pass_one(old(st).g@, it), r == reg_one_of(final(st).g@),
+{ unimplemented!() }
+#[verifier::external_body]
+pub fn __abs_pass_two(st: &mut St, it: u64) -> (r: f64)
+    ensures final(st).g@ == pass_two(old(st).g@, it), r == reg_two_of(final(st).g@),
+{ unimplemented!() }
+pub uninterp spec fn strats_of(s: int) -> [Box<[f64]>; 2];
+#[verifier::external_body]
+pub fn __abs_final_strats(st: &St) -> (r: [Box<[f64]>; 2])
+    ensures r == strats_of(st.g@),
+{ unimplemented!() }
+
+pub trait ChanceInfoset { }
+pub trait PlayerInfoset { }
+#[verifier::external_body] pub struct RegretParams { }
+#[verifier::external_body] pub struct Node { }
+
+// ---- extracted from src/solve/data.rs: type SolveInfo ----
+pub type SolveInfo = ([f64; 2], [Box<[f64]>; 2]);
+
+// ---- extracted from src/solve/external.rs: fn solve_external_single ----
+pub fn solve_external_single(
+    start: &Node,
+    chance_info: &[impl ChanceInfoset],
+    player_info: [&[impl PlayerInfoset]; 2],
+    max_iter: u64,
+    max_reg: f64,
+    params: &RegretParams,
+) -> (out: SolveInfo) 
+    ensures
+        exists|k: nat| #![trigger state_after(__s0(), k)] k <= max_iter
+            && (forall|j: nat| 1 <= j < k ==> !below_at(__s0(), j, max_reg))
+            && (k < max_iter ==> k >= 1 && below_at(__s0(), k, max_reg))
+            && (k == 0 ==> out.0[0] == finf() && out.0[1] == finf())
+            && (k > 0 ==> (out.0[0], out.0[1]) == regs_at(__s0(), k))
+            && out.1 == strats_of(state_after(__s0(), k)), // @ob C09.V.first_below.returns_state_k
+{
+broadcast use fl;
+proof { ax_obeys(); }
+let mut __st = __init_state();
+proof { assume(__st.g@ == __s0()); }
+let ghost s0 = __st.g@;
+let ghost mut k: nat = 0;
+
+    
+    
+    let mut reg_one = __inf(); let mut reg_two = __inf();
+    for it in r: 1..=max_iter 
+invariant_except_break
+    k == r.index@,
+    forall|j: nat| 1 <= j <= k ==> !below_at(s0, j, max_reg),
+invariant
+    __st.g@ == state_after(s0, k),
+    k <= max_iter,
+    k == 0 ==> reg_one == finf() && reg_two == finf(),
+    k > 0 ==> (reg_one, reg_two) == regs_at(s0, k),
+ensures
+    forall|j: nat| 1 <= j < k ==> !below_at(s0, j, max_reg), // @ob C09.V.first_below.no_earlier_stop
+    k < max_iter ==> k >= 1 && below_at(s0, k, max_reg), // @ob C09.V.first_below.stops_only_below
+{
+broadcast use fl;
+proof { ax_obeys(); k = k + 1; }
+
+        // player one
+        
+        
+        reg_one = __abs_pass_one(&mut __st, it);
+        // player two
+        
+        
+        reg_two = __abs_pass_two(&mut __st, it);
+        // check to terminate
+        if f64::max(reg_one, reg_two) < max_reg {
+            break;
+        }
+    }
+    let strats = __abs_final_strats(&__st);
+    ([reg_one, reg_two], strats)
+}
+
+
+// vacuity canary: must be REJECTED by the verifier (an inconsistent axiom set would accept it)
+pub proof fn __canary_must_fail()
+    ensures false, // @ob __canary
+{
+    broadcast use fl; ax_obeys();
+}
+
+} // verus!
+fn main() {}
